@@ -32,6 +32,7 @@ TILT_TOL = 0.02
 RATE_TOL = 0.05
 YAW_TOL = 0.05
 SP_REST_TOL = 1e-3
+FLYAWAY_TOL = 15.0  # m; how far the (leash-dragged) hover point may end from the commanded one; unchanged tree: <= 6.1 m
 
 
 def setup():
@@ -48,6 +49,9 @@ def gen(seed, tier="quick"):
     p0 = (np.array(sp) + d).tolist()
     p0[2] = max(p0[2], 4.0)
     tilt = ic.uniform(0, math.radians(60))
+    ic2 = stream(seed, "topology2")
+    if ic2.random() < 0.3:
+        tilt = ic2.uniform(math.radians(45), math.radians(60))  # the far end of the envelope more often (round 7)
     az = ic.uniform(-math.pi, math.pi)
     yaw_err = ic.uniform(-2.6, 2.6)  # initial heading relative to the commanded heading, see note below
     # the commanded hover includes a heading (the script's yaw set-point, moved by the rudder stick)
@@ -167,6 +171,8 @@ def run(scn):
         sp_drag = float(np.linalg.norm(hist[-1][4] - sp))  # how far the leash carried the hover point away from the commanded one
         metrics = {"d0": d0, "tilt0": tilt_of(x0[6:10]), "sp_drag": sp_drag, "pos_err_late": pe, "tilt_late": te, "rate_late": we, "att_err_late": ye, "sp_motion_last2s": spm,
                    "sp_final_offset": float(np.linalg.norm(hist[-1][4] - sp))}
+        if sp_drag > FLYAWAY_TOL:
+            violation("hover_point_carried_away", "closed loop (%s)" % mode, "the hover point ended %.2f m from the commanded position (limit %.0f m): the vehicle was thrown away before it settled; initial tilt %.2f rad" % (sp_drag, FLYAWAY_TOL, tilt_of(x0[6:10])), mode=mode)
         if pe > POS_TOL:
             violation("position_not_converged", "closed loop (%s)" % mode, "position error %.4f m after t=%g s (limit %.2f m); yaw set-point %.3f rad" % (pe, T_CONV[mode], POS_TOL, scn.get("psi_sp", 0.0)), mode=mode)
         if te > TILT_TOL or ye > YAW_TOL:
